@@ -220,7 +220,7 @@ func (C08) Generate(t *tape.Tape, tier string) interface{} {
 		sc.Schedules = append(sc.Schedules, s)
 		sc.TZs = append(sc.TZs, []string{"", "", "Asia/Tokyo", "America/Los_Angeles", "Pacific/Kiritimati"}[t.Pick(5)])
 		sc.LowFD = append(sc.LowFD, t.Bool(1, 4))
-		sc.Par = append(sc.Par, t.Bool(1, 4))
+		sc.Par = append(sc.Par, t.Bool(1, 3))
 		sc.Unpriv = append(sc.Unpriv, t.Bool(1, 5))
 		sc.Deploy = append(sc.Deploy, t.Pick(2*len(deployMenu))) // half of the schedules: default deployment
 		torn := 0
